@@ -44,6 +44,16 @@ func (wrapper DelegationHooksWrapper) AfterUndelegationStarted(
 	) {
 		// if the operator is opting out, we need to use the finish epoch of the opt out.
 		unbondingCompletionEpoch = wrapper.keeper.GetOperatorOptOutFinishEpoch(ctx, operator)
+		if unbondingCompletionEpoch < 0 {
+			// the operator opted out before it ever became a validator, so no opt out
+			// epoch was scheduled and there is no slashable stake to hold on to.
+			wrapper.keeper.Logger(ctx).Debug(
+				"AfterUndelegationStarted: operator opted out before activation; ignoring",
+				"operator", operator,
+				"recordKey", fmt.Sprintf("%x", recordKey),
+			)
+			return nil
+		}
 		// even if the operator opts back in, the undelegated vote power does not reappear
 		// in the picture. slashable events between undelegation and opt in cannot occur
 		// because the operator is not in the validator set.
